@@ -659,12 +659,15 @@ def r09_16(run, model):
             continue
         heads = {}
         for l in S.find(f.body, "Local"):
-            if l.get("init") is None or l["pat"]["k"] != "PIdent":
+            if l.get("init") is None:
                 continue
             t = S.norm_ws(run.facts.text(CM, l["init"]["sp"]))
             mm = re.fullmatch(r"&(\w+)\[0\]", t)
-            if mm:
+            if mm and l["pat"]["k"] == "PIdent":
                 heads[l["pat"]["name"]] = mm.group(1)
+            mm = re.fullmatch(r"(\w+)\.split_first\(\)", t)
+            if mm and S.pat_bindings(l["pat"]):
+                heads[S.pat_bindings(l["pat"])[0]] = mm.group(1)
         if not heads:
             continue
         fns = {g.name for g in model.fns(CM) if re.fullmatch(r"(\w+::)*Expr", (g.node.get("ret") or "").replace(" ", ""))}
